@@ -35,7 +35,9 @@ RULE = ('DSL programs with one designated child wrapped in a lifted transform, a
         'decorator forms, cond x 2 predicates, switch x 3 indices, while_loop x trip counts 0-3) x '
         'lifting filters x outer mutable filters, init and apply; plus BFS over call histories of '
         'one jitted class (states = canonical (variables, last call kind); transitions = calls '
-        'compared with the plain program). Non-trivial: body has a mutable variable or the '
+        'compared with the plain program); plus every ordered pair of 16 module field values '
+        '(hash- and ==-colliding ones included) on one jit / remat transformed class, second call '
+        'vs the plain module. Non-trivial: body has a mutable variable or the '
         'history contains a change of attribute / structure / mutability; distinct by case text')
 ASSUMPTIONS = [
   'value clauses for transforms other than remat use bodies that draw no rng inside the '
@@ -54,7 +56,8 @@ MAPPED = ['params', ['params', 'stats'], True]
 def bounds(tier):
   q = tier == 'quick'
   return dict(body_statements=2 if q else 3, history_len=2 if q else 3,
-              filters=len(FILTERS), while_trips=[0, 1, 2, 3], switch_indices=[0, 1, 2])
+              filters=len(FILTERS), while_trips=[0, 1, 2, 3], switch_indices=[0, 1, 2],
+              field_values=len(FIELD_VALUES))
 
 
 def _bodies(tier, rng=False):
@@ -110,14 +113,97 @@ def units(tier, seed):
   L = bounds(tier)['history_len']
   for first in range(len(CALL_KINDS)):
     us.append(dict(kind='H', first=first, maxlen=L))
+  for form in ('deco-jit', 'deco-remat', 'class-jit'):
+    us.append(dict(kind='K', form=form))
   return us
 
 
 def run_unit(unit):
   res = core.new_result()
   {'A': _fam_A, 'R': _fam_R, 'B': _fam_B, 'D': _fam_D, 'M': _fam_M, 'H': _fam_H,
-   'S': _fam_S}[unit['kind']](res, unit)
+   'S': _fam_S, 'K': _fam_K}[unit['kind']](res, unit)
   return res
+
+
+FIELD_VALUES = [0, 1, -1, -2, 2, 1.0, -1.0, 0.5, True, False, (-1,), (-2,), (1, 2), 'a', 'b', None]
+
+
+def _fam_K(res, unit):
+  """Module fields are part of what a lifted jit specialises on: every ordered pair of field
+  values from FIELD_VALUES (values that compare or hash alike included: -1 / -2, 1 / 1.0 / True,
+  0 / False) is run as M(k1) then M(k2) on one transformed class in one process, and both
+  results are compared with the untransformed module."""
+  import jax
+  import jax.numpy as jnp
+  import flax.linen as nn
+  form = unit['form']
+
+  def body(self, x):
+    k = self.k
+    w = self.param('w', lambda key: jnp.asarray([2.0, 3.0], jnp.float32))
+    if isinstance(k, tuple):
+      return x * w + float(sum(k)) * len(k)
+    if isinstance(k, str):
+      return x * w + float(ord(k))
+    if k is None:
+      return x * w - 7.0
+    if isinstance(k, bool):
+      return x * w + (11.0 if k else 13.0)
+    if isinstance(k, float):
+      return x * w * k + 0.25
+    return x * w * k
+
+  class Plain(nn.Module):
+    k: object = 0
+
+    @nn.compact
+    def __call__(self, x):
+      return body(self, x)
+
+  if form == 'class-jit':
+    T = nn.jit(Plain)
+  else:
+    deco = nn.jit if form == 'deco-jit' else nn.remat
+
+    class T(nn.Module):
+      k: object = 0
+
+      @deco
+      @nn.compact
+      def __call__(self, x):
+        return body(self, x)
+
+  x = jnp.asarray([1.0, -2.0], jnp.float32)
+  variables = Plain(k=0).init(jax.random.key(0), x)
+  for i, k1 in enumerate(FIELD_VALUES):
+    for j, k2 in enumerate(FIELD_VALUES):
+      if i == j:
+        continue
+      res['evals'] += 2
+      res['transitions'] += 1
+      key = f'{form}|{k1!r}:{type(k1).__name__}|{k2!r}:{type(k2).__name__}'
+      try:
+        t1 = T(k=k1).apply(variables, x)
+        t2 = T(k=k2).apply(variables, x)
+      except Exception as e:  # noqa
+        core.violation(res, f'K-raises|{key}', f'{type(e).__name__}: {e}'[:200],
+                       dict(form=form, first=repr(k1), second=repr(k2)))
+        continue
+      p1 = Plain(k=k1).apply(variables, x)
+      p2 = Plain(k=k2).apply(variables, x)
+      if canon_tree(np.asarray(t1)) != canon_tree(np.asarray(p1)):
+        core.violation(res, f'K-first|{key}', 'first call differs from the plain module',
+                       dict(form=form, first=repr(k1), second=repr(k2)),
+                       observed=jsonable(t1), expected=jsonable(p1))
+      if canon_tree(np.asarray(t2)) != canon_tree(np.asarray(p2)):
+        core.violation(res, f'K-stale|{key}',
+                       'a module with a different field value returned what the previously traced '
+                       'module computes (stale trace)',
+                       dict(form=form, first=repr(k1), second=repr(k2)),
+                       observed=jsonable(t2), expected=jsonable(p2))
+      core.outcome(res, f'K:{form}:ok')
+      res['nontrivial'].append(core.h(key))
+  res['samples'].append(dict(kind='K', form=form, values=[repr(v) for v in FIELD_VALUES]))
 
 
 _SJ = None
